@@ -157,8 +157,12 @@ def canon(obs):
 # =====================================================================================================================
 # hit half
 # =====================================================================================================================
-def hit_case(net, ann, key, prefix=(), bound=0, alpha_name='full'):
-    """announce by node `ann`, then every other node looks the key up (sequentially).  Returns (trace, obs)."""
+def hit_case(net, ann, key, prefix=(), bound=0, alpha_name='full', entry='finder'):
+    """announce by node `ann`, then every other node looks the key up (sequentially) through the entry point(s) named by
+    `entry`: 'finder' = Node.get_iterative_value_finder, 'accumulate' = Node.accumulate_peers (the queue interface the
+    downloader uses: found blob peers are confirmed with a DHT ping before they are queued), 'both'.
+    Returns (trace, obs)."""
+    import asyncio
     from vf.explore import Chooser
     from vf.udpfab import node_ip
     from refs.kademlia_ref import closest_k, is_valid_peer_address
@@ -190,24 +194,51 @@ def hit_case(net, ann, key, prefix=(), bound=0, alpha_name='full'):
     obs['announce'] = {'status': st, 'exc': exc, 'stored': sorted(stored), 'holding': sorted(holding),
                        'ideal': sorted(ideal), 'duration': round(lp.time() - t0, 3)}
     obs['lookups'] = []
+    obs['queue_lookups'] = []
     for s in range(n):
         if s == ann:
             continue
-        sink = []
-        first_contacts = {(p.address, p.udp_port) for p in net.nodes[s].protocol.routing_table.find_close_peers(key)}
-        lp.sent_log = []
-        t1 = lp.time()
-        i1 = lp.iterations
-        status, task = drive(value_lookup(net.nodes[s], key, sink))
-        st, exc = task_outcome(status, task, lp)
-        me = net.nodes[s].protocol
-        asked = {dst for (_, _, src, dst, pt) in lp.sent_log if pt == 0 and src == (me.external_ip, me.udp_port)}
-        lp.sent_log = None
-        found = sorted({(a, p) for a, p, _ in sink})
-        obs['lookups'].append({'searcher': s, 'status': st, 'exc': exc, 'hit': ann_peer in found, 'found': found,
-                               'duration': round(lp.time() - t1, 3), 'iterations': lp.iterations - i1,
-                               'beyond_shortlist': len(asked - first_contacts),
-                               'invalid': [f for f in found if not is_valid_peer_address(*f)]})
+        if entry in ('finder', 'both'):
+            sink = []
+            first_contacts = {(p.address, p.udp_port) for p in net.nodes[s].protocol.routing_table.find_close_peers(key)}
+            lp.sent_log = []
+            t1 = lp.time()
+            i1 = lp.iterations
+            status, task = drive(value_lookup(net.nodes[s], key, sink))
+            st, exc = task_outcome(status, task, lp)
+            me = net.nodes[s].protocol
+            asked = {dst for (_, _, src, dst, pt) in lp.sent_log if pt == 0 and src == (me.external_ip, me.udp_port)}
+            lp.sent_log = None
+            found = sorted({(a, p) for a, p, _ in sink})
+            obs['lookups'].append({'searcher': s, 'status': st, 'exc': exc, 'hit': ann_peer in found, 'found': found,
+                                   'duration': round(lp.time() - t1, 3), 'iterations': lp.iterations - i1,
+                                   'beyond_shortlist': len(asked - first_contacts),
+                                   'invalid': [f for f in found if not is_valid_peer_address(*f)]})
+        if entry in ('accumulate', 'both'):
+            # Node.accumulate_peers: blob hashes go in on one queue, lists of confirmed peers come out on the other; the
+            # worker never ends by itself, so "the announcer is on the peer queue" is awaited up to a virtual horizon
+            search_queue = asyncio.Queue()
+            peer_queue, worker = net.nodes[s].accumulate_peers(search_queue)
+            search_queue.put_nowait(key.hex())
+            got = set()
+
+            def announcer_queued():
+                while not peer_queue.empty():
+                    for p in peer_queue.get_nowait():
+                        got.add((p.address, p.tcp_port))
+                return ann_peer in got
+
+            t1 = lp.time()
+            pings0 = lp.stats['sent']
+            status = lp.run_until(announcer_queued, chooser=ch if bound else None, budget=bound - ch.cost(), alpha=alpha,
+                                  max_steps=HIT_STEPS, horizon_t=t1 + (n + 2) * RPC_TIMEOUT,
+                                  on_choice=lambda kind, k, cost: devs.append(kind))
+            took = round(lp.time() - t1, 3)
+            worker.cancel()
+            lp.run_until(worker.done, max_steps=2000)
+            obs['queue_lookups'].append({'searcher': s, 'status': status, 'hit': ann_peer in got, 'queued': sorted(got),
+                                         'duration': took, 'datagrams': lp.stats['sent'] - pings0,
+                                         'invalid': [f for f in sorted(got) if not is_valid_peer_address(*f)]})
     obs['deviations'] = devs
     obs['digest'] = lp.trace_digest.hexdigest()
     obs['end'] = round(lp.time(), 3)
@@ -248,6 +279,14 @@ def judge_hit(case, obs, fixed):
             if lk['invalid']:
                 out.append(({'kind': 'value-lookup-invalid-address', 'half': 'hit'},
                             f"value lookup yielded {lk['invalid']}"))
+        for lk in obs.get('queue_lookups', ()):
+            if not lk['hit']:
+                out.append(({'kind': 'accumulate-peers-miss', 'n': n, 'hash': hname, 'schedule': sched},
+                            f"Node.accumulate_peers of node {lk['searcher']} never queued announcer {case['ann']} within "
+                            f"{n + 2} RPC timeouts ({lk['status']}, queued {lk['queued']})"))
+            if lk['invalid']:
+                out.append(({'kind': 'value-lookup-invalid-address', 'half': 'hit-queue'},
+                            f"accumulate_peers queued {lk['invalid']}"))
     return out
 
 
@@ -256,9 +295,9 @@ def note_hit(res, case, obs, fixed):
     res.count('evaluations')
     res.count('transitions', obs['work'][0] + obs['work'][1])
     ck = (case['n'], tuple(case['order']), case['stagger'], case['ann'], case['hash'])
-    res.distinct_add('states', ('hit', ck, tuple(trim(case.get('choices', ())))))
+    res.distinct_add('states', ('hit', ck, case.get('entry', 'both'), tuple(trim(case.get('choices', ())))))
     res.distinct_add('nontrivial', ('hit', ck, obs['digest']))
-    res.distinct_add('outcomes', canon({k: obs[k] for k in ('announce', 'lookups')}))
+    res.distinct_add('outcomes', canon({k: obs[k] for k in ('announce', 'lookups', 'queue_lookups')}))
     a = obs['announce']
     if a['status'] == 'done' and a['stored']:
         res.witness('announce_stored')
@@ -266,6 +305,10 @@ def note_hit(res, case, obs, fixed):
             res.witness('stored_on_exactly_k_closest')
         elif fixed:
             res.tally('interpretation_only:stored_on_fewer_than_all_k_closest')
+    if any(lk['hit'] for lk in obs['queue_lookups']):
+        res.witness('accumulate_peers_queued_announcer_after_pong')
+    if any(lk['hit'] and lk['duration'] > 0 for lk in obs['queue_lookups']):
+        res.witness('accumulate_peers_confirmation_overlapped_timers')
     if any(lk['beyond_shortlist'] for lk in obs['lookups']):
         res.witness('lookup_needed_2_rounds')
     if any(lk['duration'] > 0 for lk in obs['lookups']):
@@ -314,12 +357,33 @@ def histories(n, long):
                 # expired at 24 h, not yet purged by the hourly refresh (t0 = 4600: next purge at t0 + 24 h + 2600 s)
                 ('re-announce+24h10m-after-expiry', hk(b'G'), [(0, x, False), (DAY + 600, x, False)], ''),
                 ('re-announce+12h-duplicated-store', hk(b'F'), [(0, x, True), (12 * HOUR, x, True)], '')]
+        # up to three announcers of one blob with independent schedules: announcer i (node n-1-i) first announces at
+        # t0 + i s (so the storing nodes list them in that order) and either never again ('O') or again 12 h later
+        # ('R'): every combination of list position and record age occurs, before and after the hourly sweeps
+        m = min(3, n)
+        for pattern in itertools.product('OR', repeat=m):
+            tag = ''.join(pattern)
+            anns = []
+            for i, c in enumerate(pattern):
+                anns.append((i, n - 1 - i, False))
+                if c == 'R':
+                    anns.append((12 * HOUR + i, n - 1 - i, False))
+            out.append(('announcers-in-list-order:' + tag, hk(b'M' + tag.encode()), anns, ''))
     return out
 
 
 SINGLE_PROBES = (DAY - 1, DAY, DAY + 1)
 LONG_PROBES = (DAY - 1, DAY, DAY + 1, DAY + 2, 36 * HOUR - 1, 36 * HOUR + 1, 2 * DAY - 2, 2 * DAY, 2 * DAY + 599,
                2 * DAY + 600, 2 * DAY + 601)
+# the several-announcer histories are probed every 6 h and, after each wave of records passed 24 h (24 h .. 24 h + 2 s and
+# 36 h .. 36 h + 2 s), after each of the next three hourly refresh_node sweeps (every node sweeps once per 3600 s)
+SWEEP_PROBES = tuple(h * HOUR + 100 for h in (6, 12, 18, 24, 25, 26, 27, 30, 36, 37, 38, 39, 42, 48)) + \
+    (DAY - 1, DAY + 1, 36 * HOUR - 1, 36 * HOUR + 1)
+
+
+def probes_of(label):
+    return SINGLE_PROBES if label == 'single' else SWEEP_PROBES if label.startswith('announcers-in-list-order') \
+        else LONG_PROBES
 
 
 def is_store_request(d):
@@ -353,8 +417,13 @@ def expiry_case(net, long=False):
     t0 = lp.time()
     obs = {'announce': [], 'probes': [], 't0': t0}
     done = {}                      # (history index, announcer) -> [(start, end)]
-    offsets = sorted({off for _, _, anns, _ in hs for off, _, _ in anns} |
-                     set(LONG_PROBES if long else SINGLE_PROBES))
+    offsets = sorted({off for _, _, anns, _ in hs for off, _, _ in anns} | {off for h in hs for off in probes_of(h[0])})
+    sweeps = []                    # (node, virtual time) of every refresh_node sweep (the real method, only observed)
+    for i, nd in enumerate(net.nodes):
+        def swept(i=i, real=nd.protocol.data_store.removed_expired_peers):
+            sweeps.append((i, lp.time()))
+            return real()
+        nd.protocol.data_store.removed_expired_peers = swept
     for off in offsets:
         if not lp.advance_to(t0 + off, max_steps=6_000_000):
             obs['stuck'] = off
@@ -375,7 +444,7 @@ def expiry_case(net, long=False):
                 if stored:
                     done.setdefault((hi_, ann), []).append((start, lp.time()))
         for hi_, (label, key, anns, hname) in enumerate(hs):
-            if off not in (SINGLE_PROBES if label == 'single' else LONG_PROBES):
+            if off not in probes_of(label):
                 continue
             who = sorted({a for _, a, _ in anns})
             for s in range(net.n):
@@ -393,6 +462,11 @@ def expiry_case(net, long=False):
                                           'status': st, 'hit': (node_ip(ann), TCP_PORT) in found,
                                           'expect': expected_at(t1, done.get((hi_, ann), [])),
                                           'duration': round(lp.time() - t1, 3)})
+    obs['sweeps'] = len(sweeps)
+    # after each wave of records passed 24 h: how many nodes ran their hourly sweep before the probe one hour later
+    obs['nodes_swept_before_probe'] = {
+        str(hi_): len({i for i, t in sweeps if t0 + lo_ < t <= t0 + hi_})
+        for lo_, hi_ in ((DAY + 2, 25 * HOUR + 100), (36 * HOUR + 2, 37 * HOUR + 100))}
     obs['duplicate_entries'] = sum(
         1 for nd in net.nodes for lst in nd.protocol.data_store._data_store.values()
         if len({(p.address, p.udp_port, p.node_id) for p, _ in lst}) != len(lst))
@@ -587,11 +661,12 @@ def dfs_parts(net, case, fixed, bound, alpha_name, part, parts, res, cap=None):
     from vf.explore import dfs_deviation, Chooser
     from vf.udpfab import fork_call
     key = blob_key(case['n'], case['ann'], case['hash'])
+    entry = case.get('entry', 'finder')
     bad = []
     seqs = {'first': None, 'last': None}
 
     def run(ch):
-        trace, obs = fork_call(hit_case, net, case['ann'], key, tuple(ch.prefix), bound, alpha_name)
+        trace, obs = fork_call(hit_case, net, case['ann'], key, tuple(ch.prefix), bound, alpha_name, entry)
         ch.trace[:] = trace
         return obs
 
@@ -633,7 +708,7 @@ def dfs_parts(net, case, fixed, bound, alpha_name, part, parts, res, cap=None):
     # determinism self-check: first, last and every violating sequence twice
     for choices, want in [s for s in (seqs['first'], seqs['last']) if s] + bad[:4]:
         for _ in range(2):
-            _, obs = fork_call(hit_case, net, case['ann'], key, tuple(choices), bound, alpha_name)
+            _, obs = fork_call(hit_case, net, case['ann'], key, tuple(choices), bound, alpha_name, entry)
             res.count('determinism_replays')
             if canon(obs) != want:
                 res.error(f'C12 hit: nondeterministic replay of {case} choices {choices}')
@@ -659,16 +734,16 @@ def work_hit(item, res):
             return
         base = {'half': 'hit', 'n': n, 'order': order, 'stagger': stagger, 'seed': seed}
         for ann, hname in item.get('cases', ()):
-            case = dict(base, ann=ann, hash=hname, choices=[])
+            case = dict(base, ann=ann, hash=hname, choices=[], entry='both')
             key = blob_key(n, ann, hname)
-            _, obs = fork_call(hit_case, net, ann, key)
+            _, obs = fork_call(hit_case, net, ann, key, (), 0, 'full', 'both')
             note_hit(res, case, obs, fixed)
             viol = judge_hit(case, obs, fixed)
             for sig, what in viol:
                 res.violation(sig, what, replay_dict(case))
             if item.get('selfcheck') or viol:
                 for _ in range(2):
-                    _, again = fork_call(hit_case, net, ann, key)
+                    _, again = fork_call(hit_case, net, ann, key, (), 0, 'full', 'both')
                     res.count('determinism_replays')
                     if canon(again) != canon(obs):
                         res.error(f'C12 hit: nondeterministic default execution {case}')
@@ -677,7 +752,7 @@ def work_hit(item, res):
                             'lookups': [(lk['searcher'], lk['hit']) for lk in obs['lookups']]})
         d = item.get('dfs')
         if d:
-            case = dict(base, ann=d['ann'], hash=d['hash'])
+            case = dict(base, ann=d['ann'], hash=d['hash'], entry=d.get('entry', 'finder'))
             dfs_parts(net, case, fixed, d['bound'], d['alphabet'], d['part'], d['parts'], res)
         if item.get('expiry'):
             long = item['expiry'] == 'long'
@@ -700,6 +775,14 @@ def work_hit(item, res):
                     res.witness('reannouncement_with_duplicated_store_datagrams')
                 if p['history'] == 'second-announcer+12h' and p['at'] == DAY + 1 and p['expect'] == 'found' and p['hit']:
                     res.witness('two_announcers_expire_on_their_own_clocks')
+            if long and obs.get('nodes_swept_before_probe') and \
+                    all(v == n for v in obs['nodes_swept_before_probe'].values()):
+                res.witness('every_node_ran_hourly_sweep_between_record_expiry_and_probe')
+            res.setmax('refresh_sweeps_in_one_history_timeline', obs.get('sweeps', 0))
+            for p in obs['probes']:
+                if p['history'].startswith('announcers-in-list-order') and p['expect'] == 'found' and p['hit'] and \
+                        p['at'] > DAY + HOUR and 'O' in p['history'].split(':')[1]:
+                    res.witness('refreshed_record_found_after_sweep_removed_stale_records_of_same_blob')
             if obs['duplicate_entries']:
                 res.tally('interpretation_only:data_store_lists_one_contact_twice_for_a_blob', obs['duplicate_entries'])
             for sig, what in judge_expiry(n, obs):
@@ -1251,7 +1334,7 @@ def plan(tier, seed):
         for part in range(d['parts']):
             items.append({'half': 'hit', 'n': d['n'], 'order': d['order'], 'stagger': d['stagger'], 'seed': seed,
                           'dfs': {'ann': d['ann'], 'hash': d['hash'], 'bound': d['bound'], 'alphabet': d['alphabet'],
-                                  'part': part, 'parts': d['parts']}})
+                                  'part': part, 'parts': d['parts'], 'entry': d['entry']}})
     counts = list(range(1, 101))
     for lo in range(0, 100, 10):
         items.append({'half': 'paging', 'counts': counts[lo:lo + 10], 'seed': seed})
@@ -1276,9 +1359,9 @@ def dfs_scope(tier):
     """Which (network, announcer, hash) cases get the deviation DFS, with which bound / alphabet / split."""
     out = []
 
-    def add(n, order, stagger, ann, h, bound, alpha, parts=1):
+    def add(n, order, stagger, ann, h, bound, alpha, parts=1, entry='finder'):
         out.append({'n': n, 'order': list(order), 'stagger': stagger, 'ann': ann, 'hash': h, 'bound': bound,
-                    'alphabet': alpha, 'parts': parts})
+                    'alphabet': alpha, 'parts': parts, 'entry': entry})
     if tier == 'quick':
         for order in join_orders(2):
             for ann in range(2):
@@ -1287,10 +1370,23 @@ def dfs_scope(tier):
         for order in join_orders(3):
             for ann in ((0, 2) if order == [0, 1, 2] else (2,)):
                 add(3, order, 0.0, ann, 'far', 1, 'full')
-        for order in (join_orders(4)[0], join_orders(4)[-1]):
-            for ann in (0, 3):
-                add(4, order, 0.0, ann, 'far', 1, 'full', parts=2)
+        add(4, join_orders(4)[0], 0.0, 3, 'far', 1, 'full', parts=2)
+        add(4, join_orders(4)[-1], 0.0, 0, 'far', 1, 'full', parts=2)
+        # the queue entry point (Node.accumulate_peers): the confirming ping / pong are datagrams of the lookup phase too
+        for order in join_orders(2):
+            for ann in range(2):
+                add(2, order, 0.0, ann, 'far', 1, 'full', entry='accumulate')
+        for ann in (0, 2):
+            add(3, [0, 1, 2], 0.0, ann, 'far', 1, 'full', entry='accumulate')
+        add(4, [0, 1, 2, 3], 0.0, 3, 'far', 1, 'full', parts=2, entry='accumulate')
     else:
+        for order in join_orders(2):
+            for ann in range(2):
+                add(2, order, 0.0, ann, 'far', 1, 'full', entry='accumulate')
+        add(2, [0, 1], 0.0, 1, 'far', 2, 'full', parts=4, entry='accumulate')
+        for order in join_orders(3):
+            add(3, order, 0.0, 2, 'far', 1, 'full', entry='accumulate')
+        add(4, [0, 1, 2, 3], 0.0, 3, 'far', 1, 'full', parts=2, entry='accumulate')
         for order in join_orders(2):
             for ann in range(2):
                 for h in HASH_NAMES:
@@ -1371,10 +1467,11 @@ def run(ctx):
         bounds={'hit_n': [2, 3, 4, 5, 8, '24 (identity + reversed order only)'] if quick else [2, 3, 4, 5, 8, 9, 12, 24, 40],
                 'join_orders': 'all permutations n<=4; all rotations + reversed n<=12; every 2nd rotation + reversed n=24,40',
                 'announcers': 'all (n<=5) else {0, 1, n-1}', 'hashes': list(HASH_NAMES),
-                'deviation_cases': sorted({(d['n'], d['bound'], d['alphabet'],
-                                           sum(1 for e in scope if (e['n'], e['bound'], e['alphabet']) ==
-                                               (d['n'], d['bound'], d['alphabet']))) for d in scope}),
-                'deviation_cases_format': '(n, bound, alphabet, number of (order, announcer, hash) cases); see dfs_scope()',
+                'deviation_cases': sorted({(d['n'], d['bound'], d['alphabet'], d['entry'],
+                                           sum(1 for e in scope if (e['n'], e['bound'], e['alphabet'], e['entry']) ==
+                                               (d['n'], d['bound'], d['alphabet'], d['entry']))) for d in scope}),
+                'deviation_cases_format': '(n, bound, alphabet, lookup entry point, number of (order, announcer, hash) '
+                                          'cases); see dfs_scope()',
                 'history_n': {'reannouncement_histories_48h': [2, 3, 4] if quick else [2, 3, 4, 5],
                               'single_announcement_24h_only': [] if quick else [8, 9, 12],
                               'new_tcp_port': [3] if quick else [3, 5], 'blob_announcer': {'n': 6, 'hours': ANNOUNCER_HOURS[ctx.tier]}},
@@ -1449,7 +1546,7 @@ def replay(data):
             else:
                 key = blob_key(data['n'], data['ann'], data['hash'])
                 _, obs = hit_case(net, data['ann'], key, tuple(data.get('choices', ())), data.get('bound', 0),
-                                  data.get('alphabet', 'full'))
+                                  data.get('alphabet', 'full'), data.get('entry', 'finder'))
                 viol = judge_hit(data, obs, fixed)
                 log.append(canon(obs))
         finally:
